@@ -1045,13 +1045,44 @@ pub fn exec_ops(w: &mut SessWorker, light: bool, fork_run: bool, src: &mut dyn O
             Some(Sess { ctx: repl.ctx.clone() })
         };
         // ---- M1: fresh session, successful lines only, one input per line
-        let mut m1 = Sess { ctx: base.ctx.clone() };
-        for (i, e) in hist.iter().enumerate() {
-            let o = m1.submit(&e.text);
+        // M1 runs on a thread of its own that lives for this one replay (only outcomes and digest
+        // lines come back): per-thread state of the system under test that the REPL session above
+        // filled on the worker thread cannot reach it.
+        fn replay_m1(ctx: numbat::Context, texts: &[String], probes: &ProbeSet, ans_defined: bool) -> (Vec<Outcome>, Vec<String>) {
+            let mut m1 = Sess { ctx };
+            let outs: Vec<Outcome> = texts.iter().map(|t| m1.submit(t)).collect();
+            let d1 = digest(&m1, probes, ans_defined, &[]);
+            (outs, d1)
+        }
+        let texts: Vec<String> = hist.iter().map(|e| e.text.clone()).collect();
+        let (m1_ctx, m1_ctx2) = (base.ctx.clone(), base.ctx.clone());
+        let (texts_r, probes_r) = (&texts, &probes);
+        // (1 replay in 3, chosen by the history itself so that a replay of the trace chooses alike:
+        // a thread per replay costs about 50 % of C07's run time — measured — mostly allocator traffic)
+        let own_thread = texts.iter().map(|t| t.len()).sum::<usize>() % 3 == 0;
+        if own_thread {
+            res.bump("checks.m1_own_thread");
+        }
+        let (m1_outs, d1) = if !own_thread {
+            Some(replay_m1(base.ctx.clone(), &texts, &probes, ans_defined))
+        } else { std::thread::scope(|sc| {
+            match std::thread::Builder::new()
+                .stack_size(16 << 20)
+                .spawn_scoped(sc, move || replay_m1(m1_ctx, texts_r, probes_r, ans_defined))
+            {
+                Ok(h) => match h.join() {
+                    Ok(r) => Some(r),
+                    Err(_) => None,
+                },
+                Err(_) => Some(replay_m1(m1_ctx2, texts_r, probes_r, ans_defined)),
+            }
+        }) }
+        .unwrap_or_else(|| replay_m1(base.ctx.clone(), &texts, &probes, ans_defined));
+        for (i, (e, o)) in hist.iter().zip(m1_outs.iter()).enumerate() {
             if let OutKind::Panic(p) = &o.kind {
                 res.sut_panics.push(p.clone());
             }
-            if o != e.out {
+            if *o != e.out {
                 res.fail(
                     "mode-diverged",
                     format!(
@@ -1065,7 +1096,6 @@ pub fn exec_ops(w: &mut SessWorker, light: bool, fork_run: bool, src: &mut dyn O
             }
         }
         res.bump("checks.m1");
-        let d1 = digest(&m1, &probes, ans_defined, &[]);
         if res.violation.is_none()
             && let Some(live) = &live
         {
